@@ -141,6 +141,7 @@ func (e *Env) RFragOrder() {
 	e.RFragDecorationPositions()
 	e.RPhysicalLines()
 	e.RTextExtent()
+	e.RVisitAll()
 	e.RSearchTransparency()
 	pkg := e.Prog.Pkg(load.PkgDecorator)
 	info := pkg.TypesInfo
@@ -864,6 +865,89 @@ func (e *Env) RTextExtent() {
 		})
 	}
 	e.Run.Floor("R-FRAG", "position look-ups examined for text extents", n, 5)
+}
+
+// RVisitAll (R-FRAG): the attachment passes of link() consider every fragment. A pass that walks
+// the fragment list with `range` does so by construction; one that walks it with an index does so
+// when the index is advanced by the loop's post statement only. An advance inside the body (to
+// step over fragments that a search has "already dealt with") needs an argument about what the
+// search swept up — forwards it sweeps what follows the comment, backwards what precedes it — that
+// this rule cannot make, so it is reported: a comment that is stepped over is never attached to a
+// node and disappears from the tree and from everything printed afterwards.
+func (e *Env) RVisitAll() {
+	pkg := e.Prog.Pkg(load.PkgDecorator)
+	info := pkg.TypesInfo
+	fd := load.FuncDecl(pkg, "fileDecorator", "link")
+	if fd == nil || fd.Body == nil {
+		return
+	}
+	isFragments := func(x ast.Expr) bool {
+		se, ok := ast.Unparen(x).(*ast.SelectorExpr)
+		if !ok {
+			return false
+		}
+		_, tn := namedOf(info.TypeOf(se.X))
+		return se.Sel.Name == "fragments" && tn == "fileDecorator"
+	}
+	n := 0
+	// the passes: the loops directly in the body of link (not the searches they call)
+	for _, st := range fd.Body.List {
+		switch loop := st.(type) {
+		case *ast.RangeStmt:
+			if isFragments(loop.X) {
+				n++
+				e.Run.OK("R-FRAG", fmt.Sprintf("link: pass %d visits every fragment", n), e.Prog.Pos(loop.Pos()), "range over the fragment list")
+			}
+		case *ast.ForStmt:
+			// for i := …; i < len(f.fragments); i++
+			be, ok := loop.Cond.(*ast.BinaryExpr)
+			if !ok {
+				continue
+			}
+			over := false
+			ast.Inspect(be, func(m ast.Node) bool {
+				if call, ok := m.(*ast.CallExpr); ok && len(call.Args) == 1 {
+					if id, ok := call.Fun.(*ast.Ident); ok && id.Name == "len" && isFragments(call.Args[0]) {
+						over = true
+					}
+				}
+				return true
+			})
+			id, isID := ast.Unparen(be.X).(*ast.Ident)
+			if !over || !isID {
+				continue
+			}
+			n++
+			idx := info.Uses[id]
+			bad := token.NoPos
+			ast.Inspect(loop.Body, func(m ast.Node) bool {
+				switch v := m.(type) {
+				case *ast.FuncLit:
+					return false
+				case *ast.AssignStmt:
+					for _, l := range v.Lhs {
+						if lid, ok := ast.Unparen(l).(*ast.Ident); ok && info.Uses[lid] == idx && bad == token.NoPos {
+							bad = v.Pos()
+						}
+					}
+				case *ast.IncDecStmt:
+					if lid, ok := ast.Unparen(v.X).(*ast.Ident); ok && info.Uses[lid] == idx && bad == token.NoPos {
+						bad = v.Pos()
+					}
+				}
+				return true
+			})
+			post, _ := loop.Post.(*ast.IncDecStmt)
+			okPost := post != nil && post.Tok == token.INC
+			at := loop.Pos()
+			if bad != token.NoPos {
+				at = bad
+			}
+			e.Run.Check("R-FRAG", fmt.Sprintf("link: pass %d visits every fragment", n), e.Prog.Pos(at), bad == token.NoPos && okPost,
+				"the index of the pass over the fragment list is changed inside the loop body (or not advanced by one per step): fragments are stepped over without being looked at; a comment among them (the second comment of a line whose first comment was attached backwards) is never attached and is lost from the tree")
+		}
+	}
+	e.Run.Floor("R-FRAG", "attachment passes of link over the fragment list", n, 2)
 }
 
 // RBlankLine (R-SCAN): whether a line of the source is empty is not decided by a fixed byte
